@@ -69,10 +69,6 @@ CFG = {
         "Swat4.C17.view_body_inert",
         "Swat4.C17.view_body_full",
         "Swat4.C17.add_body_full",
-        "Swat4.C17.server_members",
-        "Swat4.C17.server_fields",
-        "Swat4.C17.player_members",
-        "Swat4.C17.objective_members",
         "Swat4.C17.detail_members",
         "Swat4.C17.enum_strings",
         "Swat4.C17.enum_slugs",
@@ -85,7 +81,6 @@ CFG = {
         "Swat4.C17.bindBool_table",
         "Swat4.C17.knownOf_spec",
         "Swat4.C17.knownOf_go",
-        "Swat4.C17.knownOf_bits",
         "Swat4.C17.facts_ok",
         "Swat4.C17.facts_json_ok",
         "Swat4.C17.facts_enum_ok",
@@ -95,6 +90,15 @@ CFG = {
         "Swat4.C17.addServer_5xx_reachable",
         "Swat4.C17.viewExecute_abstracts",
         "Swat4.C17.listExecute_abstracts",
+    ],
+    # proved in the Lean files and used by other proofs, but NOT audited as property theorems: each is a
+    # read-back of a definition, glue between two names, true by type, or a corollary of an audited theorem
+    "supporting": [
+        {"name": "Swat4.C17.server_members", "why": "read-back of the definition (`rfl` on `serverJsonOf … .members`; the comparison with the independent table is server_spec_agrees)"},
+        {"name": "Swat4.C17.server_fields", "why": "read-back of the definition (27 projections of `serverJsonOf`, `rfl` each)"},
+        {"name": "Swat4.C17.player_members", "why": "read-back of the definition (`playerJsonOf … .members` unfolded; the comparison with the independent table is player_spec_agrees)"},
+        {"name": "Swat4.C17.objective_members", "why": "read-back of the definition (`rfl`; the comparison with the independent table is objective_spec_agrees)"},
+        {"name": "Swat4.C17.knownOf_bits", "why": "read-back of the definition (`knownOf` evaluated on 11 sample words by `rfl`; the quantified statements are knownOf_spec / knownOf_go)"},
     ],
     "shards": (1, 4),
     "nontrivial": _c17_nontrivial,
@@ -168,18 +172,18 @@ CFG = {
                 "on every route of the model a 200 comes only from a stored record with the details bit, its hostname_html / hostname_plain "
                 "are ToHTML / Clean of the hostname stored in that record and nothing is stored or queued, and every other status carries "
                 "no server data; view_body_full / add_body_full - the whole body of a 200 is NewServerDetailFromDomain resp. "
-                "NewServerFromDomain of exactly the stored record; server_members / player_members / objective_members / detail_members - "
-                "the JSON documents member by member: name, order and the stored field each equals (player_num = Info.NumPlayers, "
-                "player_max = Info.MaxPlayers, round_max = Info.NumRounds, time_round = Info.TimeLeft, vip_captures = VIPArrests, "
-                "team / coop_status / status = the String() renderings with their numeral fallback, the four slugs, players and "
-                "objectives in stored order, nothing read from Details.Info); server_spec_agrees / player_spec_agrees / "
-                "objective_spec_agrees - the model's choice of stored field per member is the one the independent reference tables "
-                "name; list_body_full / list_elements - the listing answers 400 exactly on an unparsable flag, else 200 with "
+                "NewServerFromDomain of exactly the stored record; detail_members - info is the model.Server of the record, players and "
+                "objectives in stored order, nothing read from Details.Info; server_spec_agrees / player_spec_agrees / "
+                "objective_spec_agrees - the JSON documents member by member: name, order and the stored field each equals "
+                "(player_num = Info.NumPlayers, player_max = Info.MaxPlayers, round_max = Info.NumRounds, time_round = Info.TimeLeft, "
+                "vip_captures = VIPArrests, team / coop_status / status = the String() renderings with their numeral fallback, the four "
+                "slugs): the model's choice of stored field per member is the one the independent reference tables "
+                "name (the literal member lists server_members / player_members / objective_members are supporting read-backs, not audited); list_body_full / list_elements - the listing answers 400 exactly on an unparsable flag, else 200 with "
                 "NewServerFromDomain of exactly the records with the info status, refreshed within the liveness window and passing "
                 "the six filters (queryMatch_prepareQuery), up to order; facts_json_ok / facts_enum_ok / slug_facts_ok - json tags, "
                 "field kinds, form tags, entity field lists, String() values and slug.Make per Latin-1 character as read from the "
-                "source on every run; view_body_inert — hence every 200 has inert hostname_html and code-free hostname_plain; knownOf_spec / knownOf_go / "
-                "knownOf_bits — the columns of the reference table are exactly the bit tests 8, 128-or-16, 256 of the status word, in the "
+                "source on every run; view_body_inert — hence every 200 has inert hostname_html and code-free hostname_plain; knownOf_spec / knownOf_go "
+                "— the columns of the reference table are exactly the bit tests 8, 128-or-16, 256 of the status word, in the "
                 "form server.go computes them and bit by bit, in the order addserver.go / getserver.go test them. The model is tied "
                 "to the code by differential runs through the real router and by facts_ok (binding tags, status bits and the regular "
                 "expressions' source text are read from the source on every run).",
